@@ -3,7 +3,8 @@
 World P/S: the real server protocol (low-level web.Server -> RequestHandler)
 and the real client protocol (ResponseHandler) behind SimTransports; a World C
 sample runs a real ClientSession against a raw server to observe the exception
-type a caller gets.  One run pushes a family of inputs through many
+type a caller gets; a 'direct' sample drives the parser objects themselves
+(feed_data in pieces, then feed_eof) and judges the exception type leaving them.  One run pushes a family of inputs through many
 connections.  DESIGN.md section 9, C10.
 """
 from __future__ import annotations
@@ -42,7 +43,12 @@ RULE = (
     "{whole, drip} delivery), 'mutants' (a block of mutated/random streams, server and client side, seeded pieces), "
     "'drip' (a never-finished line / header block / chunk-size line / trailer delivered byte by byte with the retained-"
     "bytes invariant after every delivery), 'work' (input families of size n, 2n, 4n), 'caller' (real ClientSession "
-    "against a raw server sending garbage). Non-trivial: at least one rejection or limit decision was exercised. "
+    "against a raw server sending garbage), 'direct' (World P: HttpRequestParser / HttpResponseParser objects fed with "
+    "feed_data() in seeded pieces and finished with feed_eof(): numeric elements - Content-Length, chunk-size, status "
+    "code, version - of 1 .. 3 x max_line_size digits, and messages cut at a seeded byte; the exception type leaving "
+    "either call or stored on a body stream is judged). Approach positions include obs-folded header / trailer fields "
+    "of the lax response parser (every physical line under the limits, the joined field around max_field_size). "
+    "Non-trivial: at least one rejection or limit decision was exercised. "
     "Distinct = (kind, position, limits, signature)."
 )
 COMPONENTS = {
@@ -68,10 +74,37 @@ LIMIT_SETS = [
 ]
 POSITIONS = ["request_line", "field", "second_request_line", "chunk_size_line", "chunk_ext", "trailer", "header_count",
              "trailer_count", "status_line", "resp_field", "resp_chunk_line", "resp_trailer", "resp_header_count"]
+# obsolete line folding exists only in the lax (response) parser; the strict request parser refuses any continuation line
+FOLDED_POSITIONS = ["resp_folded_field", "resp_folded_trailer"]
 
 
-def build(position, length, lim):
-    """A message whose element at `position` is exactly `length` bytes long (line without CRLF)."""
+def fold(total, lim, pieces):
+    """One obs-folded field 'X: v...' as physical lines (joined with CRLF, no final CRLF) whose line lengths add up to
+    `total`; every physical line stays below both line limits, only the joined field approaches max_field_size."""
+    cap = min(lim["max_line_size"], lim["max_field_size"]) - 1
+    k = max(2, pieces, -(-total // cap))
+    if total < 4 + 2 * (k - 1):
+        return None
+    sizes = [total // k + (1 if i < total % k else 0) for i in range(k)]
+    lines = ["X: " + "v" * (sizes[0] - 3)]
+    for i in range(1, k):
+        lines.append((" " if i % 2 else "\t") + "w" * (sizes[i] - 1))
+    return "\r\n".join(lines)
+
+
+def build(position, length, lim, pieces=3):
+    """A message whose element at `position` is exactly `length` bytes long (line without CRLF; for a folded field the
+    sum of its physical lines)."""
+    if position == "resp_folded_field":
+        f = fold(length, lim, pieces)
+        if f is None:
+            return None
+        return "client", f"HTTP/1.1 200 OK\r\n{f}\r\nContent-Length: 2\r\n\r\nok"
+    if position == "resp_folded_trailer":
+        f = fold(length, lim, pieces)
+        if f is None:
+            return None
+        return "client", f"HTTP/1.1 200 OK\r\nTransfer-Encoding: chunked\r\n\r\n2\r\nok\r\n0\r\n{f}\r\n\r\n"
     if position == "request_line":
         pad = length - len("GET / HTTP/1.1")
         if pad < 0:
@@ -140,7 +173,7 @@ def expected(position, length, lim):
     L, F, H = lim["max_line_size"], lim["max_field_size"], lim["max_headers"]
     if position in ("request_line", "second_request_line", "status_line", "chunk_size_line", "resp_chunk_line", "chunk_ext"):
         return "accept" if length <= L else "reject"
-    if position in ("field", "trailer", "resp_field", "resp_trailer"):
+    if position in ("field", "trailer", "resp_field", "resp_trailer", "resp_folded_field", "resp_folded_trailer"):
         if length <= F:
             return "accept"
         # whole line over the limit but value alone (line minus 'X: ') not: band
@@ -157,7 +190,103 @@ def expected(position, length, lim):
     raise ValueError(position)
 
 
+# World P: numeric elements whose magnitude (number of digits) approaches a line limit or an interpreter limit
+NUMERIC_POSITIONS = ["req_content_length", "req_chunk_size", "req_chunk_size_ext", "req_later_chunk_size", "req_version",
+                     "resp_content_length", "resp_chunk_size", "resp_chunk_size_ext", "resp_later_chunk_size",
+                     "resp_status_code", "resp_version"]
+_HEX_POS = ("req_chunk_size", "req_chunk_size_ext", "req_later_chunk_size", "resp_chunk_size", "resp_chunk_size_ext",
+            "resp_later_chunk_size")
+
+
+def build_numeric(position, digits, lead, fill, hexfill, after):
+    """(side, stream): a message whose numeric element at `position` has `digits` digits (first digit `lead`, the
+    rest `fill` / `hexfill`), followed by `after` bytes of whatever comes next (body bytes)."""
+    if position in _HEX_POS:
+        n = (lead + hexfill * digits)[:digits]
+    else:
+        n = (lead + fill * digits)[:digits]
+    body = ("abcdefghij" * (after // 10 + 1))[:after]
+    side = "server" if position.startswith("req_") else "client"
+    what = position.split("_", 1)[1]
+    head = ("POST / HTTP/1.1\r\nHost: a\r\n" if side == "server" else "HTTP/1.1 200 OK\r\n")
+    if what == "content_length":
+        return side, head + f"Content-Length: {n}\r\n\r\n" + body
+    if what == "chunk_size":
+        return side, head + f"Transfer-Encoding: chunked\r\n\r\n{n}\r\n" + body
+    if what == "chunk_size_ext":
+        return side, head + f"Transfer-Encoding: chunked\r\n\r\n{n};e=1\r\n" + body
+    if what == "later_chunk_size":
+        return side, head + f"Transfer-Encoding: chunked\r\n\r\n3\r\nabc\r\n{n}\r\n" + body
+    if what == "version":
+        if side == "server":
+            return side, f"GET / HTTP/{n}.1\r\nHost: a\r\n\r\n" + body
+        return side, f"HTTP/1.{n} 200 OK\r\nContent-Length: 2\r\n\r\nok" + body
+    if what == "status_code":
+        return side, f"HTTP/1.1 {n} OK\r\nContent-Length: 2\r\n\r\nok" + body
+    raise ValueError(position)
+
+
+def _cuts(rng, n, mode):
+    """Explicit read boundaries (absolute offsets) for a stream of n bytes."""
+    if mode == "whole" or n < 2:
+        return []
+    if mode == "byte":
+        return list(range(1, n))
+    k = rng.randint(1, 6)
+    return sorted({rng.randrange(1, n) for _ in range(k)})
+
+
+def _gen_direct(rng):
+    """World P scenario: the parser objects driven directly (feed_data in pieces, then feed_eof)."""
+    lim = dict(LIMIT_SETS[3] if rng.random() < 0.6 else rng.choice(LIMIT_SETS))
+    L, F = lim["max_line_size"], lim["max_field_size"]
+    if rng.random() < 0.5:
+        # digits: decades, interpreter limits for int<->str conversion (4300 decimal digits ~ 3572 hex digits), the
+        # applicable line limit from below and above
+        digits = rng.choice([1, 2, 8, 16, 17, 20, 64, 100, 309, 1000, 2000, 3000, 3571, 3572, 3600, 4000, 4299, 4300, 4301,
+                             5000, 6000, 8000, L - 20, L - 1, L, L + 1, F - 17, F - 16, F - 15, 3 * L])
+        return {"kind": "direct", "family": "numeric", "limits": lim, "digits": max(1, digits),
+                "lead": rng.choice(["0", "1", "9"]), "fill": rng.choice(["0", "7", "9"]),
+                "hexfill": rng.choice(["0", "7", "a", "F"]), "after": rng.choice([0, 1, 15, 200]),
+                "positions": list(NUMERIC_POSITIONS), "seg": rng.choice(["whole", "whole", "pieces", "byte_tail"]),
+                "segseed": rng.randrange(1 << 30), "eof": rng.random() < 0.85}
+    # eof at any byte: a well-formed (or mutated) message cut at a seeded offset, then end of input
+    cases = []
+    for _ in range(10):
+        q = rng.random()
+        if q < 0.35:
+            g = G.gen_stream(rng, max_req=2, mutate=rng.random() < 0.5, bytemut=0.2, truncate=0.0, body_max=80)
+            side, s = "server", g["stream"]
+        elif q < 0.7:
+            pos = rng.choice(POSITIONS + FOLDED_POSITIONS)
+            base = lim["max_headers"] if pos.endswith("_count") else (
+                L if pos in ("request_line", "second_request_line", "status_line", "chunk_size_line", "resp_chunk_line",
+                             "chunk_ext") else F)
+            b = build(pos, max(1, base + rng.choice([-6, -1, 0, 1, 4])), lim) if base <= 300 else None
+            if b is None:
+                b = build(pos, 30, lim)
+            side, s = b
+        else:
+            side = "client"
+            s = rng.choice(["HTTP/1.1 200 OK\r\nContent-Length: 30\r\n\r\n" + "abcdefghij" * 3,
+                            "HTTP/1.1 200 OK\r\nTransfer-Encoding: chunked\r\n\r\n1e;x=y\r\n" + "abcdefghij" * 3 + "\r\n0\r\nT: v\r\n\r\n",
+                            "HTTP/1.0 200 OK\r\nX: y\r\n\r\nuntil the end of input",
+                            "HTTP/1.1 200 OK\r\nContent-Encoding: deflate\r\nContent-Length: 11\r\n\r\nx\x9cKLJ\x06\x00\x02M\x01'",
+                            "HTTP/1.1 101 Switching\r\nUpgrade: websocket\r\nConnection: upgrade\r\n\r\n\x81\x02hi"])
+        cut = rng.randint(0, len(s)) if rng.random() < 0.85 else len(s)
+        mode = rng.choice(["whole", "whole", "pieces", "byte"]) if cut <= 600 else rng.choice(["whole", "pieces"])
+        cases.append([side, s[:cut], _cuts(rng, cut, mode)])
+    return {"kind": "direct", "family": "eofcut", "limits": lim, "cases": cases}
+
+
 def gen(rng, tier, index):
+    r0 = rng.random()
+    if r0 < 0.07:
+        return _gen_direct(rng)
+    if r0 < 0.12:
+        return {"kind": "approach", "position": rng.choice(FOLDED_POSITIONS),
+                "limits": dict(rng.choice(LIMIT_SETS[:3] + LIMIT_SETS[4:])), "read_bufsize": rng.choice([65536, 16]),
+                "fold_pieces": rng.choice([2, 3, 4, 7])}
     r = rng.random()
     if r < 0.40:
         pos = rng.choice(POSITIONS)
@@ -213,6 +342,23 @@ def shrink(scn):
     if scn["kind"] == "caller" and len(scn["garbage"]) > 1:
         for i in range(len(scn["garbage"])):
             yield dict(scn, garbage=[scn["garbage"][i]])
+    if scn["kind"] == "approach" and scn.get("fold_pieces", 2) > 2:
+        yield dict(scn, fold_pieces=2)
+    if scn["kind"] == "direct" and scn["family"] == "numeric":
+        if len(scn["positions"]) > 1:
+            for p in scn["positions"]:
+                yield dict(scn, positions=[p])
+        if scn["seg"] != "whole":
+            yield dict(scn, seg="whole")
+        if scn["after"]:
+            yield dict(scn, after=0)
+    if scn["kind"] == "direct" and scn["family"] == "eofcut":
+        if len(scn["cases"]) > 1:
+            for c in scn["cases"]:
+                yield dict(scn, cases=[c])
+        for i, c in enumerate(scn["cases"]):
+            if c[2]:
+                yield dict(scn, cases=scn["cases"][:i] + [[c[0], c[1], []]] + scn["cases"][i + 1:])
 
 
 # ---------------------------------------------------------------------------
@@ -475,12 +621,13 @@ def run(scn, ch, log=False):
                     "status_line": lim["max_line_size"], "chunk_size_line": lim["max_line_size"],
                     "resp_chunk_line": lim["max_line_size"], "chunk_ext": lim["max_line_size"],
                     "field": lim["max_field_size"], "trailer": lim["max_field_size"], "resp_field": lim["max_field_size"],
-                    "resp_trailer": lim["max_field_size"], "header_count": lim["max_headers"],
+                    "resp_trailer": lim["max_field_size"], "resp_folded_field": lim["max_field_size"],
+                    "resp_folded_trailer": lim["max_field_size"], "header_count": lim["max_headers"],
                     "resp_header_count": lim["max_headers"], "trailer_count": lim["max_headers"]}[pos]
             eq = "eq" if lim["max_line_size"] == lim["max_field_size"] else ("line_lt_field" if lim["max_line_size"] < lim["max_field_size"] else "line_gt_field")
             lengths = sorted({max(1, base - 6), base - 1, base, base + 1, base + 4, base * 4})
             for length in lengths:
-                b = build(pos, length, lim)
+                b = build(pos, length, lim, scn.get("fold_pieces", 3))
                 if b is None:
                     continue
                 side, stream = b
@@ -612,6 +759,8 @@ def run(scn, ch, log=False):
         elif kind == "caller":
             nontrivial = True
             _caller(w, scn, violate, probes)
+        elif kind == "direct":
+            nontrivial = _direct(w, scn, violate, probes)
         st = w.stats()
         res = {
             "violations": viols, "nontrivial": bool(nontrivial),
@@ -677,6 +826,96 @@ def _work(w, family, n):
         except Exception:
             pass
     return count[0]
+
+
+def _aio_frame(exc):
+    """Innermost aiohttp frame of an exception's traceback: ('file.py', 'function')."""
+    tb = exc.__traceback__
+    last = None
+    while tb is not None:
+        fn = tb.tb_frame.f_code.co_filename
+        if "/aiohttp/" in fn:
+            last = (fn.rsplit("/", 1)[-1], tb.tb_frame.f_code.co_name)
+        tb = tb.tb_next
+    return last
+
+
+def _direct(w, scn, violate, probes):
+    """World P: the parser objects driven directly.  Every input is fed with feed_data() in the given pieces and - unless
+    feed_data() raised - finished with feed_eof().  Whatever leaves either call, and whatever is stored as the
+    exception of a body stream handed out with a message, must be an HTTP protocol error (HttpProcessingError)."""
+    from aiohttp.base_protocol import BaseProtocol
+    from aiohttp.http_exceptions import HttpProcessingError
+    from aiohttp.http_parser import HttpRequestParser, HttpResponseParser
+
+    lim = scn["limits"]
+    loop = w.loop
+    if scn["family"] == "numeric":
+        cases = []
+        rr = random.Random(scn["segseed"])
+        for pos in scn["positions"]:
+            side, s = build_numeric(pos, scn["digits"], scn["lead"], scn["fill"], scn["hexfill"], scn["after"])
+            n = len(s)
+            if scn["seg"] == "whole" or n < 2:
+                cuts = []
+            elif scn["seg"] == "pieces":
+                cuts = sorted({rr.randrange(1, n) for _ in range(rr.randint(1, 5))})
+            else:  # the last bytes one at a time (the element's terminator and what follows it)
+                cuts = list(range(max(1, n - scn["after"] - 6), n))
+            cases.append([side, s, cuts, scn["eof"], pos])
+    else:
+        cases = [[c[0], c[1], c[2], True, "eofcut"] for c in scn["cases"]]
+    any_decision = False
+    for side, s, cuts, eof, label in cases:
+        data = G.enc(s)
+        proto = BaseProtocol(loop)
+        cls = HttpRequestParser if side == "server" else HttpResponseParser
+        kw = {"read_until_eof": True} if side == "client" else {}
+        parser = cls(proto, loop, 2 ** 16, max_line_size=lim["max_line_size"], max_field_size=lim["max_field_size"],
+                     max_headers=lim["max_headers"], **kw)
+        proto._parser = parser
+        payloads = []
+        bounds = [0] + [c for c in cuts if 0 < c < len(data)] + [len(data)]
+        stage = "feed_data"
+        err = None
+        try:
+            for a, b in zip(bounds, bounds[1:]):
+                if a == b:
+                    continue
+                msgs, _upgraded, _tail = parser.feed_data(data[a:b])
+                payloads.extend(pl for _m, pl in msgs)
+            if eof:
+                stage = "feed_eof"
+                parser.feed_eof()
+        except Exception as e:  # judged below
+            err = e
+        probes["direct_cases"] = probes.get("direct_cases", 0) + 1
+        loop.note("direct", f"{label}:{side}:{len(data)}:{stage}:{type(err).__name__ if err is not None else 'ok'}:{len(payloads)}")
+        if err is not None:
+            any_decision = True
+            probes["direct_errors_" + stage] = probes.get("direct_errors_" + stage, 0) + 1
+            if not isinstance(err, HttpProcessingError):
+                violate("only_protocol_errors", f"parser:{side}:{stage}:{type(err).__name__}@{_aio_frame(err)}",
+                        f"{'request' if side == 'server' else 'response'} parser {stage}() raised {type(err).__name__}: "
+                        f"{str(err)[:120]!r} (not an HTTP protocol error) under limits {lim}; input {label} "
+                        f"({len(data)} bytes, read boundaries {cuts[:8]}): {s[:70]!r}...{s[-30:]!r}")
+                return True
+        for pl in payloads:
+            pe = pl.exception() if hasattr(pl, "exception") else None
+            if pe is not None:
+                any_decision = True
+                probes["direct_payload_errors"] = probes.get("direct_payload_errors", 0) + 1
+                if not isinstance(pe, HttpProcessingError):
+                    violate("only_protocol_errors", f"parser:{side}:payload_exception:{type(pe).__name__}@{_aio_frame(pe)}",
+                            f"body stream of a parsed message carries {type(pe).__name__}: {str(pe)[:120]!r} (not an HTTP "
+                            f"protocol error) under limits {lim}; input {label} ({len(data)} bytes): {s[:70]!r}...{s[-30:]!r}")
+                    return True
+        if loop.exc_contexts:
+            c = loop.exc_contexts[0]
+            violate("only_protocol_errors", f"parser:{side}:loop_exception:{c['exc_type']}@{c.get('frame')}",
+                    f"exception reached the event loop: {c['message']} {c['exc']}")
+            return True
+    return any_decision or bool(cases)
 
 
 def _caller(w, scn, violate, probes):
@@ -759,3 +998,14 @@ def oracle_selftest():
     assert expected("request_line", 65, lim) == "reject" and expected("header_count", 9, lim) == "reject"
     side, s = build("field", 64, lim)
     assert len(s.split("\r\n")[2]) == 64
+    for total in (58, 64, 68, 256):
+        for pieces in (2, 3, 7):
+            ls = fold(total, lim, pieces).split("\r\n")
+            assert sum(len(x) for x in ls) == total and len(ls) >= pieces and all(len(x) < 64 for x in ls), (total, pieces)
+            assert ls[0].startswith("X: v") and all(x[0] in " \t" and len(x) > 1 for x in ls[1:])
+    assert expected("resp_folded_field", 64, lim) == "accept" and expected("resp_folded_trailer", 68, lim) == "reject"
+    assert build("resp_folded_trailer", 68, lim, 2)[0] == "client"
+    side, s = build_numeric("req_chunk_size", 5, "1", "0", "a", 3)
+    assert side == "server" and s.endswith("\r\n\r\n1aaaa\r\nabc")
+    side, s = build_numeric("resp_content_length", 4, "0", "7", "a", 0)
+    assert side == "client" and "Content-Length: 0777\r\n\r\n" in s
